@@ -15,6 +15,7 @@ import Gzx.Proofs.Image1DPath
 import Gzx.Properties.C03Row128
 import Gzx.Properties.C03Row39
 import Gzx.Properties.C03RowFull
+import Gzx.Proofs.Image1DWhite
 namespace Gzx.Properties.C03Image
 open Gzx Gzx.OneD Gzx.Image1D Gzx.Image1DPath Gzx.WriterFrontend
 
@@ -70,6 +71,50 @@ theorem oned_image_read_write_code128 (E : Env) (hT : Row128.wfRow128B E.T.code1
     imagePath E .code128 contents width height (margin.map Int.ofNat) none .upright binz ext39 th =
       .ok ⟨.code128, contents, max 1 height / 2, false, false, none⟩ :=
   upright_of_readable (code128_readable E hT contents mods hascii h width height margin hm ext39) binz th
+
+/-- the same under each FORCE_CODE_SET hint ("A" = 101, "B" = 100, "C" = 99) -/
+theorem code128_forced_readable (E : Env) (hT : Row128.wfRow128B E.T.code128 = true) (f : Nat)
+    (hf : f = 99 ∨ f = 100 ∨ f = 101) (contents : List Nat)
+    (mods : List Bool) (hascii : ∀ c ∈ contents, c < 128) (h : code128Modules E.T contents (some f) = .ok mods)
+    (width height : Nat) (margin : Option Nat) (hm : 2 ≤ margin.getD 10) (ext39 : Bool) :
+    Readable E .code128 ext39 contents width height margin (some f) contents mods (margin.getD 10) := by
+  have hne : contents ≠ [] := by
+    intro e; subst e
+    simp [code128Modules, code128Codes, bind, Except.bind, throw, throwThe, MonadExceptOf.throw] at h
+  have hlen : ¬ (contents.length < 1 ∨ contents.length > 80) := by
+    intro hc
+    unfold code128Modules code128Codes at h
+    simp only [bind, Except.bind, throw, throwThe, MonadExceptOf.throw, if_pos hc] at h
+    cases h
+  have hcore : (code128Writer List.length (fun c h => code128Modules E.T c (forcedOf h))).core contents
+      (hintsOf (margin.map Int.ofNat) (some f)) = .ok mods := by
+    rcases hf with rfl | rfl | rfl <;>
+      (simp [code128Writer, plainWriter, code128Core, hintsOf, forcedOf, h]; exact ⟨hne, by omega⟩)
+  have hbar : true ∈ mods := by
+    apply Classical.byContradiction
+    intro hno
+    obtain ⟨o, ho, _⟩ := C03Row128.code128_row_read_write_forced E.T hT f hf contents mods hascii h 1 1 1 (by omega)
+    rw [paddedRow_allwhite _ _ _ _ hno, Image1DWhite.code128_white] at ho
+    cases ho
+  refine ⟨hm, hbar, ?_, ?_⟩
+  · unfold writeImage
+    simp only [Sym.fmt]
+    rw [encode1D_render _ (show (0 : Int) ≤ 10 by decide) contents hne _ (show [fmtCODE_128].contains fmtCODE_128 = true by decide)
+      width height margin (some f) mods hcore]
+    simp only [code128Writer, plainWriter]
+    rw [show ((10 : Int)) = ((10 : Nat) : Int) from rfl, mapGetD]
+  · intro lq s rq _ hs _ _ _
+    obtain ⟨o, ho, ht, _⟩ := C03Row128.code128_row_read_write_forced E.T hT f hf contents mods hascii h lq s rq hs
+    exact ⟨(.code128, contents), by simp only [scanSym, rowRead, ho, Except.map, ht], rfl⟩
+
+/-- **`oned_image_read_write_code128_forced`** — "and each forced code set": the same through the whole image path -/
+theorem oned_image_read_write_code128_forced (E : Env) (hT : Row128.wfRow128B E.T.code128 = true) (f : Nat)
+    (hf : f = 99 ∨ f = 100 ∨ f = 101) (contents : List Nat)
+    (mods : List Bool) (hascii : ∀ c ∈ contents, c < 128) (h : code128Modules E.T contents (some f) = .ok mods)
+    (width height : Nat) (margin : Option Nat) (hm : 2 ≤ margin.getD 10) (binz : Binz) (ext39 th : Bool) :
+    imagePath E .code128 contents width height (margin.map Int.ofNat) (some f) .upright binz ext39 th =
+      .ok ⟨.code128, contents, max 1 height / 2, false, false, none⟩ :=
+  upright_of_readable (code128_forced_readable E hT f hf contents mods hascii h width height margin hm ext39) binz th
 
 /-! ## Code 93 -/
 
@@ -445,6 +490,8 @@ example : Row39.WF93Row refEnv.T = true ∧ Row39.WF39Row refEnv.T = true ∧ Ro
 example : OneD.WFUpcEan refEnv.T = true ∧ Gzx.Proofs.OneDRowExtTotal.wfRow refEnv.T refEnv.X = true := by decide +kernel
 /-- margin bounds: 7 (EAN-13 / EAN-8 / UPC-A), 13 (UPC-E) for the reference guards; the default 9 meets the first only -/
 example : 2 * OneD.sumL refEnv.T.startEnd + 1 = 7 ∧ 2 * OneD.sumL refEnv.T.upceMiddleEnd + 1 = 13 := by decide
+example : imagePath refEnv .code128 [49, 50, 51, 52] 0 1 none (some 100) .upright .global false false =
+    .ok ⟨.code128, [49, 50, 51, 52], 0, false, false, none⟩ := by decide +kernel
 /-- content hypotheses are satisfiable, and the theorems' conclusions on concrete instances -/
 example : code128Modules refEnv.T [65, 49, 50, 51, 52, 97] none ≠ .error .writer := by decide +kernel
 example : CheckDigit.writerContents .ean13 (bytesOf "590123412345") = .ok (bytesOf "5901234123457") := by decide
